@@ -350,8 +350,14 @@ impl Oracle<'_> {
                 latest.insert((a.id, a.src), t);
             }
         }
+        // When some of the search's own datagrams could not be sent, the node abandons outstanding
+        // queries (a whole round that fails to send clears them), so which of several answers
+        // from one node it still takes is not determined by the wire. Send failures are outside
+        // this property's fault model; then any token that node gave this search is accepted.
+        let lenient = sh.send_failures > 0;
         for an in &sh.announces {
-            let ok = latest.iter().any(|((_, addr), tok)| *addr == an.dst && **tok == an.token);
+            let ok = latest.iter().any(|((_, addr), tok)| *addr == an.dst && **tok == an.token)
+                || (lenient && sh.accepted.iter().any(|a| a.src == an.dst && a.token.as_ref() == Some(&an.token)));
             if !ok {
                 let from_there = latest.keys().any(|(_, addr)| *addr == an.dst);
                 let detail = format!(
